@@ -10,6 +10,7 @@ func init() {
 			{Name: "H_C20_int8", Tier: "quick", What: "int8: untrained => error; for absMax in {2^-10, 0.1, 1, 3, 127, 1000, 2^20} (set by Train, by SetAbsMax, or Train then SetAbsMax) and every float32 v with |v|<=absMax: |deq-v| <= absMax/254*(1+2^-12) (T2)", Covers: []string{"ran"}},
 			{Name: "H_C20_int8_train", Tier: "quick", What: "Int8Quantizer.Train computes the maximum absolute value (3 symbolic values)", Covers: []string{"ran"}},
 			{Name: "H_C20_kmeans", Tier: "quick", What: "KMeans: n<=2 vectors, d=1, 3 metrics, k any int, maxIter any int (effective iterations <=2): min(k,n) centroids, nil for k<=0 / n=0, assignments in range, nearest when converged, input untouched, second call bit-identical", Covers: []string{"ran", "nil", "converged"}},
+			{Name: "H_C20_kmeans_finite", Tier: "quick", What: "KMeans, k=2, 2 iterations, 2 points or 3 with a duplicate (an empty cluster arises), symbolic coordinates in [-1e6,1e6]: every centroid coordinate is finite (T2)", Covers: []string{"ran"}},
 			{Name: "H_C20_train_twice", Tier: "quick", What: "IVF / PQ / IVFPQ trained twice on the same 12 vectors: bit-identical centroids and codebooks, identical result lists", Covers: []string{"ran"}},
 			{Name: "H_C20_kmeans3", Tier: "thorough", What: "KMeans n=3, k=2, l2sq, <=2 iterations", Covers: []string{"ran"}},
 		},
